@@ -9,7 +9,18 @@ from .. import env, verdict
 from . import c04
 
 PROP = "C09"
+def _many_sites(count, doc_lines=0):
+    """A module with many sites of a rule that handles one site per pass (implicit if / else swap), optionally below a long module doc-string: the pass budget
+    of one application must not depend on how long the file is."""
+    doc = ""
+    if doc_lines:
+        doc = '"""Module with a long description.\n\n' + "".join(f"Line {i:04d} of the description of this module, which says nothing in particular.\n" for i in range(doc_lines)) + '"""\n'
+    return doc + "".join(f"\n\ndef f{i}(x):\n    if x > {i}:\n        x += 1\n        x *= {i + 2}\n        print(x)\n        return x - {i}\n    return {i}\n" for i in range(count)) + "\n\nprint(" + ", ".join(f"f{i}({i + 1})" for i in range(count)) + ")\n"
+
+
 ANTAGONISTS = [
+    _many_sites(14, 270),
+    _many_sites(24),
     # a multi-line module docstring and a name whose import is guessed: the import must not be added again on every application
     '"""Module\n\ndocstring of several lines.\n"""\nprint(json.dumps(1), os.sep)\n',
     "#!/usr/bin/env python\n# comment\n\'\'\'Doc\nstring\'\'\'\nfrom __future__ import annotations\nprint(Path('.'), math.pi)\n",
